@@ -26,7 +26,7 @@ dict(**kwargs) -> new dictionary initialized with the name=value pairs
 var (
 	StringDictType = NewTypeX("dict", dictDoc, DictNew, nil)
 	DictType       = NewType("dict", dictDoc)
-	expectingDict  = ExceptionNewf(TypeError, "a dict is required")
+	expectingDict  = ExceptionTemplatef(TypeError, "a dict is required")
 )
 
 func init() {
